@@ -9,6 +9,7 @@ V = os.path.dirname(os.path.dirname(os.path.abspath(__file__)))
 sys.path.insert(0, os.path.join(V, "sa"))
 from props import PROPS
 
+SEED_BASE = "3f0a31d"  # /repo HEAD the seeding sub-agents worked from
 ALL = [p for p in ["C%02d" % i for i in range(1, 21)] if p in PROPS]
 
 
@@ -20,6 +21,17 @@ def main():
     for sid in ids:
         d = os.path.join(V, "seeded", sid)
         r = subprocess.run(["python3", os.path.join(V, "tools", "try_patch.py"), "--patch", os.path.join(d, "patch.diff")] + ALL, stdout=subprocess.PIPE, stderr=subprocess.STDOUT, text=True, env=env)
+        baseline = set()
+        used_base = None
+        if "APPLY-FAILED" in r.stdout:
+            # the change was written against an older /repo HEAD (before later fix: commits): run the
+            # checks on that base + change and subtract what the base alone reports
+            used_base = SEED_BASE
+            rb = subprocess.run(["python3", os.path.join(V, "tools", "try_patch.py"), "--base", SEED_BASE, "--none"] + ALL, stdout=subprocess.PIPE, stderr=subprocess.STDOUT, text=True, env=env)
+            for l in rb.stdout.splitlines():
+                if l.strip().startswith(("rule violated", "UNDECIDED", "ANCHOR")):
+                    baseline.add(re.sub(r"^(rule violated|UNDECIDED \(fail-closed\)|ANCHOR-MISSING/FLOOR \(fail-closed; not a rule violation\)): ", "", l.strip()).split(" at ")[0])
+            r = subprocess.run(["python3", os.path.join(V, "tools", "try_patch.py"), "--base", SEED_BASE, "--patch", os.path.join(d, "patch.diff")] + ALL, stdout=subprocess.PIPE, stderr=subprocess.STDOUT, text=True, env=env)
         fired = {}
         cur = None
         for l in r.stdout.splitlines():
@@ -31,9 +43,11 @@ def main():
             elif cur in fired and l.strip().startswith(("rule violated", "UNDECIDED", "ANCHOR")):
                 k = l.strip()
                 k = re.sub(r"^(rule violated|UNDECIDED \(fail-closed\)|ANCHOR-MISSING/FLOOR \(fail-closed; not a rule violation\)): ", "", k).split(" at ")[0]
-                fired[cur]["keys"].append(k)
+                if k not in baseline:
+                    fired[cur]["keys"].append(k)
+        fired = {p_: v for p_, v in fired.items() if v["keys"] or v["verdict"] == "INTERNAL"}
         meta = json.load(open(os.path.join(d, "meta.json")))
-        mat[sid] = {"property": meta["property"], "summary": meta.get("summary"), "fired": fired, "apply_failed": "APPLY-FAILED" in r.stdout}
+        mat[sid] = {"property": meta["property"], "summary": meta.get("summary"), "fired": fired, "apply_failed": "APPLY-FAILED" in r.stdout, "base": used_base or "HEAD"}
         print(sid, "->", {k: v["keys"][:2] for k, v in fired.items()} or "SILENT", flush=True)
         json.dump(mat, open(path, "w"), indent=1)
     # markdown
